@@ -195,6 +195,7 @@ MAX_PATHS = dict(quick=600, thorough=5000)
 ASSUME_SQRT_ARGS_POSITIVE = True
 SKIP_UNKNOWN_BRANCHES = True
 FEAS_TIMEOUT_MS = 3000
+CFG_BUDGET_S = dict(quick=150, thorough=300)
 
 
 def configs(tier):
